@@ -129,11 +129,18 @@ let () =
         let infos = List.concat_map (fun t -> List.filter_map (fun a -> a.a_url) t.t_attrs) t2 in
         let verdict =
           if f0 = "ERR" || final = "ERR" then "fail:sanitiser-returned-error"
-          else if not (List.for_all urlinfo_sound infos) then "fail:url-parse-result-shows-a-browser-another-scheme"
-          else if not (h_tok_style_check its t2) then "fail:tokenizer-reads-back-a-style-value-the-rewriter-did-not-write"
-          else if not (List.for_all otoken_inert (bm_tokens t2)) then "fail:model-emits-a-token-that-is-not-inert"
-          else match html_verdict rep with
-            | "ok" -> tags_verdict tags
+          else
+            (* first the end-to-end verdict on the FINAL output (re-tokenised and re-parsed by the driver, judged
+               by the extracted spec), whatever the intermediate models say; then the per-case hypotheses *)
+            match html_verdict rep with
+            | "ok" ->
+                (match tags_verdict tags with
+                 | "ok" ->
+                     if not (List.for_all urlinfo_sound infos) then "fail:url-parse-result-shows-a-browser-another-scheme"
+                     else if not (h_tok_style_check its t2) then "fail:tokenizer-reads-back-a-style-value-the-rewriter-did-not-write"
+                     else if not (List.for_all otoken_inert (bm_tokens t2)) then "fail:model-emits-a-token-that-is-not-inert"
+                     else "ok"
+                 | v -> v)
             | v -> v in
         Mlutil.print_model ["S" ^ field_of_str m; "S" ^ field_of_str mfinal; tags_agree rawtags] verdict
     | "text", [t], [out; ivs] ->
